@@ -149,6 +149,10 @@ def _diff_fields(exp, obs):
     hard, soft = [], []
     if obs.get("joinok") is False:
         hard.append("joinok (C03 join law for e-mail: get_full_text() != trimmed newline-join of the unit texts)")
+    want = [a["supp"] for a in obs.get("atts", []) if a["supp"][0] != "-"]
+    if obs.get("suppall", want) != want:
+        hard.append("suppall (one call of iterate_supported_attachments() on the whole message does not yield, in "
+                    "order, the extractions of exactly the attachments that extract on their own)")
     for k in ("plainsep", "fullsep"):
         if not all(obs.get(k, [])):
             hard.append(f"{k} (texts of separate parts are fused: no white space between them)")
@@ -387,24 +391,25 @@ def _worker_mail(job, wd):
         return direct_cache[key]
 
     def supp_fn(c, idx, bt):
+        """(token, result list) of iterate_supported_attachments() on a copy holding only attachment idx."""
         one = copy.copy(c)
         one.attachments = [c.attachments[idx]]
         try:
             rs = list(one.iterate_supported_attachments())
         except Exception:
-            return ["exc", "?", 0]
+            return ["exc", "?", 0], []
         if not rs:
-            return g.ABSENT
-        if bt[0] not in ("bytes", "bytesnl"):
-            return g.UNKNOWN
-        data = c.attachments[idx].data.getvalue()
+            return g.ABSENT, []
         ft = [(type(r).__name__, r.get_full_text()) for r in rs]
+        if bt[0] not in ("bytes", "bytesnl"):
+            return g.UNKNOWN, ft
+        data = c.attachments[idx].data.getvalue()
         pl, j = bt[1], bt[2]
         if ft == full_text(g.EXT[pl] if pl != "bin" else "txt", data):
-            return ["ft", pl, j]
+            return ["ft", pl, j], ft
         if ft == full_text("txt", data):
-            return ["ftastxt", pl, j]
-        return g.UNKNOWN
+            return ["ftastxt", pl, j], ft
+        return g.UNKNOWN, ft
 
     out = []
     cases = []
